@@ -29,6 +29,9 @@ pub struct C11Cli;
 
 impl Prop for C11Cli {
     type Case = c11::Case;
+    fn max_shrink_iters(&self) -> u32 {
+        120
+    }
     fn name(&self) -> &'static str {
         "bgpfu-command"
     }
@@ -185,6 +188,9 @@ pub struct C20Agent;
 
 impl Prop for C20Agent {
     type Case = AgentLogCase;
+    fn max_shrink_iters(&self) -> u32 {
+        120
+    }
     fn name(&self) -> &'static str {
         "agent-stderr"
     }
@@ -349,6 +355,9 @@ pub struct C07Agent;
 
 impl Prop for C07Agent {
     type Case = AgentCloseCase;
+    fn max_shrink_iters(&self) -> u32 {
+        60
+    }
     fn name(&self) -> &'static str {
         "agent-exit"
     }
